@@ -59,6 +59,11 @@ CLAIMED = {
    text="For generated templates with whitespace-rich text and values, every subset of hyphen slots (all 2^k when k <= 10, samples beyond) is rendered and related to the hyphen-free render: equal modulo whitespace, obtainable by deleting whitespace only, and - when every hyphen faces literal text - equal to the template with exactly that adjacent whitespace deleted.",
    note="All three relations are between executions of the implementation; the harness only decides statically which text token a hyphen faces (after merging adjacent text). Hyphens on the inner side of raw/comment are excluded from the strong relation (C05 governs raw bodies).",
    ref="DESIGN.md 7.C13"),
+ "C05": dict(
+   technique="property-based testing: bounded-exhaustive strings over the delimiter alphabet plus rapid-generated byte/UTF-8 strings (native go fuzzing of the tokenizer in the thorough tier) against the tokenizer partition law, the identity law, the raw/comment laws and exact value printing",
+   text="Every string up to length 6 (8 thorough) over { } % - quote space newline a, and random strings up to 64 KiB, are tokenized and checked against the partition law (sources concatenate to the input, trim tokens zero-width, line = start + preceding newlines); strings without openers must render to themselves; every self-contained raw/comment body must come out verbatim / vanish without being evaluated; string values of any bytes must be printed exactly.",
+   note="Trusted: the reference scan that decides whether a raw/comment body keeps to itself (bodies that swallow their closer are outside the statement and are excluded and counted).",
+   ref="DESIGN.md 7.C05"),
 }
 
 REASON_PENDING = "check not built yet in this snapshot of /verif (planned: see DESIGN.md section 7); nothing is claimed for it"
